@@ -21,6 +21,7 @@ import Pyc.Driver.NativeScript
 import Pyc.Driver.Pool
 import Pyc.Driver.WitnessCodec
 import Pyc.Driver.BodyAsm
+import Pyc.Driver.Gov
 open Lean Pyc.Driver
 
 /-- dispatch on the prefix of `op` -/
@@ -32,6 +33,7 @@ def dispatch (op : String) (j : Json) : R Json :=
   else if op.startsWith "builder." then handleBuilder op j
   else if op.startsWith "codec." || op.startsWith "cbor." then handleCodec op j
   else if op.startsWith "custom." then handleCustom op j
+  else if op.startsWith "gov." then handleGov op j
   else if op.startsWith "sel." then handleSelection op j
   else if op.startsWith "backend." then handleBackend op j
   else if op.startsWith "bip32." then handleBip32 op j
